@@ -33,7 +33,7 @@ def nontriv(c, m):
 
 
 TS = re.compile(r'^\[\s*(\d+)([.,])(\d{3})\]')
-TS_ANY = re.compile(r'\[\s*(\d+)([.,])(\d{3})\]')
+TS_ANY = re.compile(r'\[\s*(\d+)([.,])(\d+)\]')
 
 
 TAIL = re.compile(r'( \{[^}]*\})?( <\w+>)?(  -> | )\w+[@#]\d+\.\w+\(')
@@ -44,8 +44,12 @@ def shift_line(line, c_us):
     # message may itself contain something that looks like a time stamp)
     for m in TS_ANY.finditer(line):
         if TAIL.match(line, m.end()):
-            us = int(m.group(1)) * 1000 + int(m.group(3)) + c_us
-            body = '%d%s%03d' % (us // 1000, m.group(2), us % 1000)
+            # any number of digits after the mark (`[1000.0]`, `[1000.2500]`): the fraction is read as a decimal fraction of a
+            # millisecond, in units of 10^-k ms with k = max(3, digits), so that the shift (whole microseconds) stays exact
+            fr = m.group(3)
+            k = max(3, len(fr))
+            units = int(m.group(1)) * 10 ** k + int(fr.ljust(k, '0')) + c_us * 10 ** (k - 3)
+            body = '%d%s%0*d' % (units // 10 ** k, m.group(2), k, units % 10 ** k)
             return line[:m.start()] + '[%s]' % body.rjust(10) + line[m.end():]
     return line
 
